@@ -133,6 +133,19 @@ Theorem C05_header_cells_aligned : forall widths cells,
   fst (hermes_header widths cells) <= record_width widths.
 Proof. exact hermes_header_aligned_lemma. Qed.
 
+(* CSV style, text columns (text is not quoted): a record made of separator-free fields splits into
+   exactly one field per column; a field containing the separator gives more.  That the texts the
+   source can put into a text column are separator-free is re-proved over the source on every run
+   (gen/OutFmtStrings.v, text_sources_sepfree) *)
+Theorem C05_csv_fields_exact : forall sep (fields : list lstr),
+  fields <> [] -> Forall (fun f => count_char sep f = 0%nat) fields ->
+  split_count sep (csv_join sep fields) = List.length fields.
+Proof. exact csv_fields_exact. Qed.
+
+Theorem C05_csv_field_with_separator : forall sep (fields : list lstr) f,
+  In f fields -> (0 < count_char sep f)%nat -> (List.length fields < split_count sep (csv_join sep fields))%nat.
+Proof. exact csv_field_with_separator. Qed.
+
 (* a used result folder: the V / Y / C files are truncated when a run opens them, so after any
    sequence of runs they hold the header lines and records of the LAST run only *)
 Theorem C05_result_file_is_last_run : forall (A : Type) (runs : list (list A)) (file last : list A),
@@ -182,3 +195,5 @@ Print Assumptions C05_header_too_many_cells.
 Print Assumptions C05_header_cells_aligned.
 Print Assumptions C05_result_file_is_last_run.
 Print Assumptions C05_no_truncation_refuted.
+Print Assumptions C05_csv_fields_exact.
+Print Assumptions C05_csv_field_with_separator.
